@@ -671,6 +671,13 @@ def call_builtin(ex, name, args, kw, node):
         r = SeqV(sort, arr, n)
         r.is_ndarray = True
         return r
+    if name == "math.prod" and len(args) == 1:
+        # product of a list of integers: the uninterpreted prod_int(a, 0, n), defined by the contracts' hints
+        q = ex.materialize(to_seq(ex, args[0], node))
+        (a,) = arrs_of(q)
+        if a.sort().range() != z3.IntSort():
+            raise Unsupported("math.prod over non-integers")
+        return ex.prop.theory.prod_int(a, I(0), q.n)
     if name in ("np.maximum", "np.minimum") and len(args) == 2:
         xs = [to_num(a) for a in args]
         if any(not t.is_int() for t in xs):
